@@ -24,7 +24,8 @@ Fixpoint unesc (s : str) : str :=
 Record obs_slot := mkos {
   o_jar : Z; o_maxd : Z; o_cells : list (list float);
   o_load : list float;        (* WINDHI, ALTI, CO2KONZ after LoadYear; -1 = left untouched *)
-  o_jtag : Z }.
+  o_jtag : Z;
+  o_opt : list (list float) }.   (* SUND, VERD, ETNULL of every stored day *)
 
 Record tokcase := mktc {
   t_layout : Z; t_nh : Z; t_none : float; t_year : Z; t_nslots : Z;
@@ -38,6 +39,20 @@ Definition cells_same (maxd : Z) (cells : list (wrec float)) (o : list (list flo
   forallb (fun p : wrec float * list float =>
              floats_same [w_tavg (fst p); w_tmin (fst p); w_tmax (fst p); w_rh (fst p); w_rad (fst p); w_wind (fst p); w_prec (fst p)] (snd p))
           (combine want o).
+
+(* the optional columns of a year file read without error: the arrays of the real WetterK against opt_year / sund_year *)
+Fixpoint opt_rows (sund verd et0 : list float) (o : list (list float)) : bool :=
+  match sund, verd, et0, o with
+  | [], [], [], [] => true
+  | a :: sund', b :: verd', c :: et0', r :: o' => floats_same [a; b; c] r && opt_rows sund' verd' et0' o'
+  | _, _, _, _ => false
+  end.
+Definition opt_same (none : float) (nh : Z) (text : option str) (os : list obs_slot) : bool :=
+  match text, os with
+  | Some t, [o] =>
+      opt_rows (sund_year none (year_column 7 nh t)) (opt_year none (year_column 5 nh t)) (opt_year none (year_column 3 nh t)) (o_opt o)
+  | _, _ => false
+  end.
 
 Definition opt_or (o : option float) (d : float) : float := match o with Some v => v | None => d end.
 
@@ -66,7 +81,7 @@ Fixpoint slots_same (cz : bool) (m : meta float) (co2s : list (Z * option float)
   | _, _ => false
   end.
 
-(* 0 = agree; 1 = class differs; 2 = arrays differ; 9 = the model abstains (TUnk) *)
+(* 0 = agree; 1 = class differs; 2 = arrays differ; 3 = optional columns (SUND, VERD, ETNULL) differ; 9 = the model abstains (TUnk) *)
 Definition tok_check (c : tokcase) : Z :=
   let text := option_map (fun s => unesc (lstr_of s)) (t_text c) in
   if t_layout c =? 0 then
@@ -74,7 +89,8 @@ Definition tok_check (c : tokcase) : Z :=
     | TUnk => 9
     | TPanic => if t_class c =? 2 then 0 else 1
     | TFatal => if t_class c =? 3 then 0 else 1
-    | TOk (st, m) => if negb (t_class c =? 0) then 1 else if slots_same false m [] 0 st (t_slots c) then 0 else 2
+    | TOk (st, m) => if negb (t_class c =? 0) then 1 else if slots_same false m [] 0 st (t_slots c) then
+                       (if opt_same (t_none c) (t_nh c) text (t_slots c) then 0 else 3) else 2
     | TErr (st, m) => if negb (t_class c =? 1) then 1 else if slots_same false m [] 0 st (t_slots c) then 0 else 2
     end
   else
